@@ -213,3 +213,61 @@ def src_address(chk, rb, floor=2):
                    re.sub(r"\s+", " ", rb.text(i))[:80], sorted(miss)),
                key="relocsrc|sum#%d" % n)
     chk.floor(R + ":sums", n, floor)
+
+
+def bound_unbound(chk, fns, floor=1):
+    """R-BOUND-UNBOUND-AGREE: the two ways of referencing a label agree on the addend."""
+    R = "R-BOUND-UNBOUND-AGREE"
+    chk.rule(R, "where a label reference branches on is_bound / is_bound_to: every variable that the not-yet-bound side hands to new_fixup() as "
+                "the addend also takes part in the displacement the bound side computes (both sides describe the same target + addend)")
+    from .must import branch_atoms
+    n = 0
+    for fn in fns:
+        atoms = branch_atoms(fn)
+        for b, (atom, pol) in sorted(atoms.items()):
+            ax = fn.e(atom)
+            if not (ax and ax["k"] == "mcall" and ax.get("cn") in ("is_bound", "is_bound_to")):
+                continue
+            succs = fn.blocks[b]["succs"]
+            if len(succs) != 2 or None in succs:
+                continue
+            bound_b, unbound_b = (succs[0], succs[1]) if pol else (succs[1], succs[0])
+
+            def region(b0):
+                """elements of the straight-line region starting at b0 (single-successor chain, stops at joins with other predecessors)"""
+                out, seen, cur = [], set(), b0
+                while cur is not None and cur not in seen and len(out) < 400:
+                    seen.add(cur)
+                    out += [el for el in fn.blocks[cur]["elems"] if isinstance(el, int)]
+                    ss = [s for s in fn.blocks[cur]["succs"] if s is not None]
+                    if len(ss) != 1 or len(fn.preds.get(ss[0], [])) != 1:
+                        break
+                    cur = ss[0]
+                return out
+            un = region(unbound_b)
+            bo = region(bound_b)
+            adds = set()
+            names = {}
+            for el in un:
+                x = fn.e(el)
+                if x["k"] in ("call", "mcall") and x.get("cn") == "new_fixup" and len(x.get("args", [])) >= 4:
+                    for j in fn.walk(x["args"][3]):
+                        y = fn.e(j)
+                        if y["k"] == "ref" and y.get("dk") in ("local", "parm") and "did" in y:
+                            adds.add(y["did"])
+                            names[y["did"]] = y["name"]
+            if not adds:
+                continue
+            used = set()
+            for el in bo:
+                for j in fn.walk(el):
+                    y = fn.e(j)
+                    if y and y["k"] == "ref" and "did" in y:
+                        used.add(y["did"])
+            n += 1
+            miss = sorted(names[d] for d in adds - used)
+            chk.ob(R, "%s|%s" % (fn.name.replace("asmjit::", ""), " ".join(fn.text(atom).split())[:40]), not miss, loc=fn.loc(atom),
+                   detail="the unbound side passes %s to new_fixup() as the addend but the bound side never uses it: the same operand resolves to "
+                          "different addresses depending on whether the label was bound before or after the reference" % miss,
+                   key="boundunbound|%s" % fn.name.replace("asmjit::", ""))
+    chk.floor(R + ":sites", n, floor)
